@@ -98,7 +98,9 @@ func (s *store) Stream(ctx context.Context, consumer stream.Consumer, f func(*pa
 
 func (s *store) maybeTruncate(currentOffset uint64) {
 	if currentOffset > 1500 && currentOffset%1000 == 0 {
+		verifPoint("before-truncate", currentOffset)
 		s.log.TruncateBefore(currentOffset - 300)
+		verifPoint("after-truncate", currentOffset)
 	}
 }
 func (s *store) Consume(ctx context.Context, consumerName string, f func(uint64, *packet.Publish) error) error {
@@ -147,8 +149,10 @@ func (s *store) Consume(ctx context.Context, consumerName string, f func(uint64,
 			if err != nil {
 				return err
 			}
+			verifPoint("before-persist", newOffset)
 			offset = newOffset
 			Encoding.PutUint64(stateOffset, offset)
+			verifPoint("after-persist", newOffset)
 			s.maybeTruncate(offset)
 		}
 
